@@ -14,6 +14,7 @@ import (
 	"go/printer"
 	"go/token"
 	"os"
+	"path/filepath"
 	"regexp"
 	"sort"
 	"strconv"
@@ -768,6 +769,94 @@ func main() {
 		w("\"%s\"%%string", strings.ReplaceAll(strings.ReplaceAll(normalize(e), "\"", "'"), "\\", "/"))
 	}
 	w("].\n\n")
+	// ---- every user of the store key and every caller of the two setters, repository-wide
+	type use struct{ file, fn, what string }
+	var keyUsers, callers []use
+	gateOK, gatePerm := false, ""
+	var walkDirs = []string{"x", "app"}
+	for _, d := range walkDirs {
+		filepath.Walk(filepath.Join(*repo, d), func(path string, info os.FileInfo, err error) error {
+			if err != nil || info.IsDir() || !strings.HasSuffix(path, ".go") || strings.HasSuffix(path, "_test.go") ||
+				strings.HasSuffix(path, ".pb.go") || strings.HasSuffix(path, ".pb.gw.go") || strings.Contains(path, "/client/") {
+				return nil
+			}
+			f, perr := parser.ParseFile(fset, path, nil, 0)
+			if perr != nil {
+				return nil
+			}
+			rel, _ := filepath.Rel(*repo, path)
+			for _, dcl := range f.Decls {
+				fd, ok := dcl.(*ast.FuncDecl)
+				if !ok || fd.Body == nil {
+					continue
+				}
+				ast.Inspect(fd.Body, func(n ast.Node) bool {
+					switch x := n.(type) {
+					case *ast.SelectorExpr:
+						if x.Sel.Name == "KeyPrefixNetworkProperties" {
+							keyUsers = append(keyUsers, use{rel, fd.Name.Name, "KeyPrefixNetworkProperties"})
+						}
+					case *ast.BasicLit:
+						if x.Kind == token.STRING && x.Value == "\"network_properties\"" && !strings.HasSuffix(rel, "codec.go") {
+							keyUsers = append(keyUsers, use{rel, fd.Name.Name, "literal"})
+						}
+					case *ast.CallExpr:
+						if se, ok := x.Fun.(*ast.SelectorExpr); ok && (se.Sel.Name == "SetNetworkProperties" || se.Sel.Name == "SetNetworkProperty") {
+							callers = append(callers, use{rel, fd.Name.Name, se.Sel.Name})
+						}
+					}
+					return true
+				})
+				// the message handler's gate: first statements check PermChangeTxFee before the keeper call
+				if rel == "x/gov/keeper/msg_server.go" && fd.Name.Name == "SetNetworkProperties" {
+					seenGate := false
+					for _, st := range fd.Body.List {
+						txt := normalize(src(st))
+						if m := regexp.MustCompile(`^isAllowed := CheckIfAllowedPermission\(ctx, k\.keeper, msg\.Proposer, types\.(\w+)\)$`).FindStringSubmatch(txt); m != nil {
+							gatePerm = m[1]
+							continue
+						}
+						if gatePerm != "" && strings.HasPrefix(txt, "if !isAllowed { return nil,") {
+							seenGate = true
+							continue
+						}
+						if strings.Contains(txt, "k.keeper.SetNetworkProperties(") {
+							gateOK = seenGate
+							break
+						}
+					}
+				}
+			}
+			return nil
+		})
+	}
+	sort.Slice(keyUsers, func(i, j int) bool { return keyUsers[i].file+keyUsers[i].fn < keyUsers[j].file+keyUsers[j].fn })
+	sort.Slice(callers, func(i, j int) bool {
+		return callers[i].file+callers[i].fn+callers[i].what < callers[j].file+callers[j].fn+callers[j].what
+	})
+	emitUses := func(name string, us []use) {
+		w("Definition %s : list (string * string * string) :=\n  [", name)
+		seen := map[string]bool{}
+		first := true
+		for _, u := range us {
+			k := u.file + "|" + u.fn + "|" + u.what
+			if seen[k] {
+				continue
+			}
+			seen[k] = true
+			if !first {
+				w(";\n   ")
+			}
+			first = false
+			w("(\"%s\"%%string, \"%s\"%%string, \"%s\"%%string)", u.file, u.fn, u.what)
+		}
+		w("].\n\n")
+	}
+	w("(* every non-test, non-client function that touches the store key / calls a setter *)\n")
+	emitUses("store_key_users", keyUsers)
+	emitUses("setter_callers", callers)
+	w("Definition msg_gate_ok : bool := %v.\nDefinition msg_gate_perm : string := \"%s\"%%string.\n\n", gateOK, gatePerm)
+
 	// helper fingerprints
 	w("Definition helper_fingerprints : list (string * string) :=\n  [")
 	type hp struct {
